@@ -58,11 +58,11 @@ def run_asan_and_valgrind(ctx, v, known):
         asan_bin = None
         out["asan"] = f"inconclusive: {e}"
     if asan_bin:
-        per = ctx.pick(2_000, 40_000)
+        per = ctx.pick(2_000, 12_000)
         env = {"ASAN_OPTIONS": "halt_on_error=1:abort_on_error=1:detect_leaks=1:symbolize=1",
                "ASAN_SYMBOLIZER_PATH": shutil.which("llvm-symbolizer-14") or shutil.which("llvm-symbolizer") or ""}
         jobs = [(subseed(ctx.seed, "pico-asan", i), i) for i in range(NCPU)]
-        reps = runner.run_shards(jobs, lambda j: pc.native_shard(asan_bin, j[0], per, maxops, "gc", 0, ctx.work, f"asan-{j[1]}", env=env))
+        reps = runner.run_shards(jobs, lambda j: pc.native_shard(asan_bin, j[0], per, maxops, "gc", 0, ctx.work, f"asan-{j[1]}", env=env, max_crashes=100_000))
         total, crashes = {}, []
         for r in reps:
             crashes += r.pop("crashes", [])
@@ -78,7 +78,7 @@ def run_asan_and_valgrind(ctx, v, known):
         per = ctx.pick(150, 1_500)
         prefix = [vg, "-q", "--error-exitcode=99", "--exit-on-first-error=yes", "--leak-check=no", "--num-callers=30", native]
         jobs = [(subseed(ctx.seed, "pico-vg", i), i) for i in range(NCPU)]
-        reps = runner.run_shards(jobs, lambda j: pc.native_shard(prefix, j[0], per, maxops, "gc", 0, ctx.work, f"vg-{j[1]}"))
+        reps = runner.run_shards(jobs, lambda j: pc.native_shard(prefix, j[0], per, maxops, "gc", 0, ctx.work, f"vg-{j[1]}", max_crashes=100_000))
         total, crashes = {}, []
         for r in reps:
             crashes += r.pop("crashes", [])
